@@ -17,7 +17,8 @@ for name in names:
     prop = meta['property']
     checks = checks_override or meta.get('also_checks', []) + [prop]
     scratch = '/tmp/seeded_run_' + name
-    subprocess.run([os.path.join(ROOT, 'tools', 'scratch_repo.sh'), scratch, '--apply', os.path.join(sd, 'patch.diff')],
+    base = ['--at', meta['base']] if meta.get('base') else []
+    subprocess.run([os.path.join(ROOT, 'tools', 'scratch_repo.sh'), scratch] + base + ['--apply', os.path.join(sd, 'patch.diff')],
                    check=True, capture_output=True)
     env = dict(os.environ, PYTHONPATH=scratch, OMP_NUM_THREADS='2')
     d = subprocess.run(['/venv/bin/python', os.path.join(sd, 'demo.py')], cwd=scratch, env=env, capture_output=True, text=True, timeout=900)
